@@ -35,6 +35,10 @@ MAppend(rs, newcs)       == Renumber(rs \o [i \in 1..Len(newcs) |-> Row(0, newcs
 MRemove(rs, cs, name, v) == LET j == ColIdx(cs, name) IN
                             SelectSeq(rs, LAMBDA r : v = NaN \/ r.c[j] # v)     \* NaN != x is true for every x
 MRename(cs, old, new)    == [j \in 1..Len(cs) |-> IF cs[j] = old THEN new ELSE cs[j]]
+(* a mapping given as a sequence of <<old, new>> pairs is applied simultaneously *)
+MRenameMap(cs, m)        == [j \in 1..Len(cs) |->
+                               IF \E k \in 1..Len(m) : m[k][1] = cs[j]
+                               THEN m[CHOOSE k \in 1..Len(m) : m[k][1] = cs[j]][2] ELSE cs[j]]
 MSlice(rs, a, b)         == SubSeq(rs, a + 1, b)                                 \* iloc[a:b], 0 <= a <= b <= len
 MReset(rs)               == Renumber(rs)
 MFillna(rs, v)           == [i \in 1..Len(rs) |->
@@ -69,7 +73,7 @@ QBoundary(rs, cs, ids)        ==
   <<IF all = {} THEN -1 ELSE CHOOSE m \in all : \A x \in all : x <= m>>
 
 (* ---------- the operation alphabet: a record o with field op ---------- *)
-IsMutation(o) == o.op \in {"modify_element", "modify_row", "modify_column", "append", "remove_rows",
+IsMutation(o) == o.op \in {"rename_map", "modify_element", "modify_row", "modify_column", "append", "remove_rows",
                            "rename_column", "slice", "reset_index", "fillna"}
 
 Enabled(o, rs, cs) ==
@@ -79,6 +83,8 @@ Enabled(o, rs, cs) ==
     [] o.op = "append"         -> \A i \in 1..Len(o.rows) : Len(o.rows[i]) = Len(cs)
     [] o.op = "remove_rows"    -> HasCol(cs, o.col)
     [] o.op = "rename_column"  -> HasCol(cs, o.old) /\ ~HasCol(cs, o.new)
+    [] o.op = "rename_map"     -> /\ \A k \in 1..Len(o.map) : HasCol(cs, o.map[k][1])
+                                  /\ LET cs2 == MRenameMap(cs, o.map) IN \A i, j \in 1..Len(cs2) : i # j => cs2[i] # cs2[j]
     [] o.op = "slice"          -> 0 <= o.a /\ o.a <= o.b /\ o.b <= Len(rs)
     [] o.op \in {"reset_index", "fillna", "iter", "len", "access"} -> TRUE
     [] o.op \in {"column", "index", "index_first", "index_dm", "bundle"} -> HasCol(cs, o.col)
@@ -96,7 +102,8 @@ NextRows(o, rs, cs) ==
     [] o.op = "reset_index"    -> MReset(rs)
     [] o.op = "fillna"         -> MFillna(rs, o.v)
     [] OTHER -> rs
-NextCols(o, cs) == IF o.op = "rename_column" THEN MRename(cs, o.old, o.new) ELSE cs
+NextCols(o, cs) == IF o.op = "rename_column" THEN MRename(cs, o.old, o.new)
+                   ELSE IF o.op = "rename_map" THEN MRenameMap(cs, o.map) ELSE cs
 
 (* Result of a query on the table (rs, cs); mutations return << >>. *)
 Result(o, rs, cs) ==
